@@ -1,7 +1,7 @@
 #!/usr/bin/env python3
 """shrink_dom2.py <vdom-id> (--line '<request>' | --file F | --findings OUT)  [--drv crabdrv]
-Delta-debug a (dom2.hist <name> (params ...) (ops ...)) request of harness/h_dom2.cpp (built with -DVDOM=<id>
-against $REPO, default /repo): ops are removed, then parameters, while harness | crabdrv still reports a
+Delta-debug a (dom2.hist <name> (params ...) (ops ...) [(probes ...)]) request of harness/h_dom2.cpp (built with -DVDOM=<id>
+against $REPO, default /repo): ops are removed, then parameters and probe constraints, while harness | crabdrv still reports a
 non-ok verdict with the same tag ([C03] / [C04] / [C16]); with --err also while CRAB_ERROR is raised; a crash
 (non-zero exit status) or a 60 s timeout of the harness is a verdict of its own.  Prints the minimal request, the verdict and the result.
 --findings OUT : OUT is a harness output file and OUT.v the driver's verdicts (as written by hrun.py); every
@@ -32,8 +32,9 @@ class Shrinker:
         self.keep_err = False
         self.drv = drv or os.environ.get("DRV") or os.path.join(vlib.LEAN, ".lake", "build", "bin", "crabdrv")
 
-    def run(self, head, params, ops):
-        req = f"({head} (params{''.join(' ' + p for p in params)}) (ops {' '.join(ops)}))"
+    def run(self, head, params, ops, probes=()):
+        pr = f" (probes {' '.join(probes)})" if probes else ""
+        req = f"({head} (params{''.join(' ' + p for p in params)}) (ops {' '.join(ops)}){pr})"
         with tempfile.NamedTemporaryFile("w", suffix=".ops", delete=False) as f:
             f.write(req + "\n"); fn = f.name
         try:
@@ -61,10 +62,11 @@ class Shrinker:
         p = inner.index(" (")
         head = inner[:p]
         parts = split_top(inner[p:])
-        assert len(parts) == 2 and parts[0].startswith("(params") and parts[1].startswith("(ops"), parts[:1]
+        assert len(parts) in (2, 3) and parts[0].startswith("(params") and parts[1].startswith("(ops"), parts[:1]
         params = split_top(parts[0][len("(params"):-1])
         ops = split_top(parts[1][len("(ops"):-1])
-        tag, msg, _, _ = self.run(head, params, ops)
+        probes = split_top(parts[2][len("(probes"):-1]) if len(parts) == 3 else []
+        tag, msg, _, _ = self.run(head, params, ops, probes)
         if not tag:
             return None
         changed = True
@@ -75,7 +77,7 @@ class Shrinker:
                 i = 0
                 while i < len(ops):
                     cand = ops[:i] + ops[i + chunk:]
-                    t, mg, _, _ = self.run(head, params, cand)
+                    t, mg, _, _ = self.run(head, params, cand, probes)
                     if t == tag:
                         ops = cand; changed = True
                     else:
@@ -84,12 +86,20 @@ class Shrinker:
             i = 0
             while i < len(params):
                 cand = params[:i] + params[i + 1:]
-                t, mg, _, _ = self.run(head, cand, ops)
+                t, mg, _, _ = self.run(head, cand, ops, probes)
                 if t == tag:
                     params = cand; changed = True
                 else:
                     i += 1
-        t, mg, o, req = self.run(head, params, ops)
+            i = 0
+            while i < len(probes):
+                cand = probes[:i] + probes[i + 1:]
+                t, mg, _, _ = self.run(head, params, ops, cand)
+                if t == tag:
+                    probes = cand; changed = True
+                else:
+                    i += 1
+        t, mg, o, req = self.run(head, params, ops, probes)
         return req, mg, o
 
 
